@@ -19,7 +19,7 @@ _counter = [0]
 
 
 def channels(tier):
-    ch = ["lowlevel", "path", "path.gz", "fileobj", "lowlevel+ignore", "second-generation", "helpers"]
+    ch = ["lowlevel", "path", "path.gz", "fileobj", "lowlevel+ignore", "second-generation", "helpers", "resumed"]
     if tier == "thorough":
         ch += ["path.bz2", "path.lz4", "path.zst"]
     return ch
@@ -64,6 +64,41 @@ def roundtrip(records, channel):
 
         with ignore_fields_for_comparison(["_generated", "x", "a", "n"]):
             return roundtrip(records, "lowlevel")
+    if channel == "resumed":
+        # a consumer that peeks at the first record (or leaves its loop early) and carries on with the same reader later
+        buf = io.BytesIO()
+        w = RecordStreamWriter(buf)
+        _feed(w, records)
+        w.flush()
+        rd = RecordStreamReader(io.BytesIO(buf.getvalue()))
+        out = []
+        for r in rd:
+            out.append(r)
+            break
+        for r in rd:
+            out.append(r)
+            if len(out) == 2:
+                break
+        out.extend(rd)
+        _counter[0] += 1
+        p = os.path.join(os.environ["VERIF_SCRATCH"], "c01-%d-%d.records.gz" % (os.getpid(), _counter[0]))
+        try:
+            with open(p, "wb") as f:
+                import gzip
+
+                f.write(gzip.compress(buf.getvalue()))
+            rd2 = RecordReader(p)
+            out2 = []
+            for r in rd2:
+                out2.append(r)
+                break
+            out2.extend(rd2)
+            rd2.close()
+        finally:
+            os.unlink(p)
+        if obs_list(out2) != obs_list(out):
+            return out2 if len(out2) != len(out) else out2
+        return out
     if channel == "second-generation":
         # what a tool does that reads a stream and writes it on: the records that were READ are written again and read again
         first = roundtrip(records, "lowlevel")
